@@ -13,13 +13,9 @@ Local Open Scope N_scope.
 (** ** every binary entry point answers with a value or an error, for every byte string.
     Tx.ReadFrom / NewTxFromStream are [read_tx]; NewTxFromBytes is [tx_from_bytes];
     Txs.ReadFrom is [read_txs]; Input.ReadFrom / ReadFromExtended are [read_input false/true];
-    Output.ReadFrom is [read_output].  The decoder functions contain no partial operation (no
-    index, no slice bound and no [make] taken from a decoded field), so [answers] - "not the fuel
-    artefact of the count loops" - is all there is to show.
-    (The "without panicking" half therefore holds by construction of the model: the result type has no panic
-    outcome.  What these theorems prove is termination under attacker-chosen counts up to 2^64-1; that the Go
-    decoders contain no partial operation is carried by the correspondence - hostile lengths and counts in
-    resource-limited child processes - and, for allocation sizes, by the cost model below.) *)
+    Output.ReadFrom is [read_output].  These five are about termination under attacker-chosen counts up to
+    2^64-1 ([answers]: not the fuel artefact of the count loops); the result type of model/Tx.v has no panic
+    outcome.  "Without panicking" is the next group, about model/Alloc.v, whose result type has one. *)
 Theorem C09_decode_total_tx : forall bs, answers (read_tx bs).
 Proof. exact decode_total_tx. Qed.
 Print Assumptions C09_decode_total_tx.
@@ -35,6 +31,63 @@ Print Assumptions C09_decode_total_input.
 Theorem C09_decode_total_output : forall bs, answers (read_output bs).
 Proof. exact decode_total_output. Qed.
 Print Assumptions C09_decode_total_output.
+
+(** ** no panic.  model/Alloc.v is the same decoders with every partial operation of the Go code made explicit, each
+    answering [APanic] when the Go runtime would panic: an allocation request ([make], [new], [append] growth) of
+    2^47 bytes or more, a uint64 that is negative as an int used as a [make] length, a slice expression [b[lo:hi]]
+    outside lo <= hi <= cap, an index expression (b[0], and the b[7] / b[3] / b[1] inside binary.*Endian.UintNN)
+    outside the length.  For every input of at most 2^42 bytes (4 TiB), whatever its length and count fields say,
+    no entry point panics.  (The bound is needed: readBytes sizes its next chunk by the bytes it has ALREADY read,
+    so a script that really is 2^46 bytes long - an io.Reader can supply one - makes the model ask for more than
+    2^47 bytes; see [C09_huge_script_panics].) *)
+Theorem C09_no_panic_tx : forall bs, lenN bs <= input_limit -> a_read_tx bs <> APanic.
+Proof. exact no_panic_tx. Qed.
+Print Assumptions C09_no_panic_tx.
+Theorem C09_no_panic_stream : forall bs, lenN bs <= input_limit -> a_tx_from_stream bs <> APanic.
+Proof. exact no_panic_stream. Qed.
+Print Assumptions C09_no_panic_stream.
+Theorem C09_no_panic_txs : forall bs, lenN bs <= input_limit -> a_read_txs bs <> APanic.
+Proof. exact no_panic_txs. Qed.
+Print Assumptions C09_no_panic_txs.
+Theorem C09_no_panic_input : forall bs, lenN bs <= input_limit -> a_read_input false bs <> APanic.
+Proof. exact (no_panic_input false). Qed.
+Print Assumptions C09_no_panic_input.
+Theorem C09_no_panic_input_extended : forall bs, lenN bs <= input_limit -> a_read_input true bs <> APanic.
+Proof. exact (no_panic_input true). Qed.
+Print Assumptions C09_no_panic_input_extended.
+Theorem C09_no_panic_output : forall bs, lenN bs <= input_limit -> a_read_output bs <> APanic.
+Proof. exact no_panic_output. Qed.
+Print Assumptions C09_no_panic_output.
+(** VarInt.ReadFrom never panics, on any input *)
+Theorem C09_no_panic_varint : forall bs, a_read_varint bs <> APanic.
+Proof. exact no_panic_varint. Qed.
+Print Assumptions C09_no_panic_varint.
+(** together with termination: every entry point answers with a value or an error ([a_answers]: neither a panic
+    nor the fuel artefact) *)
+Theorem C09_decode_answers : forall bs, lenN bs <= input_limit ->
+  a_answers (a_read_tx bs) /\ a_answers (a_tx_from_stream bs) /\ a_answers (a_read_txs bs) /\
+  a_answers (a_read_input false bs) /\ a_answers (a_read_input true bs) /\ a_answers (a_read_output bs).
+Proof. exact a_answers_all. Qed.
+Print Assumptions C09_decode_answers.
+(** the bound is needed.  readBytes on a length field of 2^46 or more (below 2^63) with that many bytes really there
+    panics in the model: the chunk loop asks for twice what it has read plus 4096, which passes 2^47 on the way.  So
+    does Output.ReadFrom on 8 bytes, ff, the length 2^46 and a script of 2^46 bytes (2^46 + 17 bytes of input).  This
+    is the finding of this group: the decoders are panic-free on anything that fits in memory, not on an unbounded
+    io.Reader. *)
+Theorem C09_huge_script_panics : forall l bs, 2 ^ 46 <= l -> l < two63 -> l <= lenN bs -> a_read_bytes l bs = APanic.
+Proof. exact huge_script_panics. Qed.
+Print Assumptions C09_huge_script_panics.
+Theorem C09_huge_output_panics : forall sats data : bytes, List.length sats = 8%nat -> lenN data = 2 ^ 46 ->
+  a_read_output (sats ++ [xff] ++ le_enc 8 (2 ^ 46) ++ data)%list = APanic.
+Proof. exact huge_output_panics. Qed.
+Print Assumptions C09_huge_output_panics.
+(** non-vacuity: the panic outcome is reachable in the model - a [make] of 2^47 bytes, a negative length, a slice
+    bound above the capacity, an index at the length *)
+Example C09_panic_reachable :
+  a_request (2 ^ 47) (aret tt []) = APanic /\ a_int_of_u64 (2 ^ 63) (aret tt []) = APanic /\
+  a_slice 0 5 4 (aret tt []) = APanic /\ a_index 1 1 (aret tt []) = APanic /\
+  a_request (2 ^ 47 - 1) (aret tt []) <> APanic.
+Proof. repeat split; vm_compute; try reflexivity; discriminate. Qed.
 
 (** ** bytes reported as consumed never exceed the bytes supplied - on success AND on error *)
 Theorem C09_consumed_le_supplied_tx : forall bs, consumed_le bs (read_tx bs).
@@ -57,20 +110,32 @@ Example C09_short_varint_example :
   read_tx [x01; x00; x00; x00; xff; x00] = PErr 6 /\ read_txs [xff; xff; xff] = PErr 3.
 Proof. split; vm_compute; reflexivity. Qed.
 
-(** ** the allocation-counting decoders are the decoders above (counter erased) *)
-Theorem C09_alloc_model_is_decoder : forall bs,
+(** ** the allocation-counting decoders are the decoders above (counter erased), for inputs up to 2^42 bytes;
+    for every input they are the decoders above or a panic ([ert r p]: r = APanic or erase r = p) *)
+Theorem C09_alloc_model_is_decoder : forall bs, lenN bs <= input_limit ->
   erase (a_read_tx bs) = read_tx bs /\ erase (a_tx_from_stream bs) = read_tx bs /\
   erase (a_read_txs bs) = read_txs bs /\
   (forall ext, erase (a_read_input ext bs) = read_input ext bs) /\ erase (a_read_output bs) = read_output bs.
 Proof.
-  intros bs. repeat split; intros;
-    [exact (erase_read_tx bs)|exact (erase_tx_from_stream bs)|exact (erase_read_txs bs)
-    |exact (erase_read_input ext bs)|exact (erase_read_output bs)].
+  intros bs H. repeat split; intros;
+    [exact (erase_read_tx bs H)|exact (erase_tx_from_stream bs H)|exact (erase_read_txs bs H)
+    |exact (erase_read_input ext bs H)|exact (erase_read_output bs H)].
 Qed.
 Print Assumptions C09_alloc_model_is_decoder.
+Theorem C09_alloc_model_is_decoder_or_panic : forall bs,
+  ert (a_read_tx bs) (read_tx bs) /\ ert (a_tx_from_stream bs) (read_tx bs) /\
+  ert (a_read_txs bs) (read_txs bs) /\
+  (forall ext, ert (a_read_input ext bs) (read_input ext bs)) /\ ert (a_read_output bs) (read_output bs).
+Proof.
+  intros bs. repeat split; intros;
+    [exact (ert_read_tx bs)|exact (ert_tx_from_stream bs)|exact (ert_read_txs bs)
+    |exact (ert_read_input ext bs)|exact (ert_read_output bs)].
+Qed.
+Print Assumptions C09_alloc_model_is_decoder_or_panic.
 
 (** ** memory: at most 32 bytes allocated per byte of input, plus 16 KiB - whatever the length
-    and count fields claim ([alloc_bound len = 32 * len + 16384]) *)
+    and count fields claim ([alloc_bound len = 32 * len + 16384]).  ([alloc_of] of a panic is 0: these say nothing
+    about a run that panicked; there is none up to 2^42 bytes, above.) *)
 Theorem C09_alloc_linear_tx : forall bs, alloc_of (a_read_tx bs) <= alloc_bound (lenN bs).
 Proof. exact alloc_linear_tx. Qed.
 Print Assumptions C09_alloc_linear_tx.
@@ -105,6 +170,13 @@ Print Assumptions C09_alloc_linear_in_consumed_input.
 Theorem C09_alloc_linear_in_consumed_output : forall bs, alloc_vs_consumed (a_read_output bs).
 Proof. exact alloc_consumed_output. Qed.
 Print Assumptions C09_alloc_linear_in_consumed_output.
+(** ... and with the panic excluded ([alloc_vs_consumed_strict]: a value or an error, allocated <= 32 * consumed + 16384) *)
+Theorem C09_alloc_linear_in_consumed_answers : forall bs, lenN bs <= input_limit ->
+  alloc_vs_consumed_strict (a_read_tx bs) /\ alloc_vs_consumed_strict (a_tx_from_stream bs) /\
+  alloc_vs_consumed_strict (a_read_txs bs) /\
+  (forall ext, alloc_vs_consumed_strict (a_read_input ext bs)) /\ alloc_vs_consumed_strict (a_read_output bs).
+Proof. exact alloc_consumed_answers. Qed.
+Print Assumptions C09_alloc_linear_in_consumed_answers.
 Example C09_small_tx_before_long_stream :
   let b := [x01;x00;x00;x00; x00; x00; x00;x00;x00;x00] ++ repeat_byte 3000 xaa in
   match a_tx_from_stream b with AOk _ n _ al => andb (n =? 10) (al <=? 32 * 10 + 16384) | _ => false end = true.
